@@ -191,6 +191,57 @@ def specC02 (d : Judged) : Bool × String × String :=
      s!"C02:false-conflict:{U d.obs.err.subject |>.takeWhile (· != ' ')}")
   else (true, "", "")
 
+/-! A direct, state-free account of what the update lists of a chain must yield (C05 "exactly
+    the resource fields plugins set … an ignore-failure update that conflicts is dropped in
+    its entirety"; C04 "the resources presented in an update request"): walk the updates in
+    chain order keeping (i) which (target, field) pairs are taken and (ii) the resources of
+    every target; an update whose fields are all free is overlaid on its target and takes
+    them; one that hits a taken field contributes NO value (it must be marked ignore-failure
+    in a successful request) but the fields it named before the taken one stay taken — that
+    is what the real ledger does, and it decides whether a later ignore-failure update is
+    dropped. -/
+structure Sim where
+  taken : List (Cid × Item) := []
+  res : List (Cid × Resources) := []
+
+def Sim.get (s : Sim) (base : Cid → Resources) (c : Cid) : Resources :=
+  match s.res.find? (fun x => x.1 = c) with
+  | some x => x.2
+  | none => base c
+
+def Sim.put (s : Sim) (c : Cid) (r : Resources) : Sim :=
+  if s.res.any (fun x => x.1 = c) then { s with res := s.res.map fun x => if x.1 = c then (c, r) else x }
+  else { s with res := s.res ++ [(c, r)] }
+
+def simUpdate (base : Cid → Resources) (s : Sim) (u : Update) : Sim :=
+  let s := if s.res.any (fun x => x.1 = u.containerId) then s else s.put u.containerId (base u.containerId)
+  match u.resources with
+  | none => s
+  | some r =>
+    let items := Ledger.setsUpd u
+    let free := items.takeWhile fun it => !(s.taken.contains (u.containerId, it))
+    if free.length == items.length && items.eraseDups.length == items.length then
+      { (s.put u.containerId (overlayRes (s.get base u.containerId) r r.pids)) with
+          taken := s.taken ++ items.map fun it => (u.containerId, it) }
+    else { s with taken := s.taken ++ free.eraseDups.map fun it => (u.containerId, it) }
+
+def simBase (d : Judged) : Cid → Resources := fun c =>
+  let own : Bool := match d.kind with | .update o => decide (o = c) | _ => false
+  if own then normRes (d.inp.resources.getD {}) else normRes {}
+
+def simPrefix (d : Judged) (n : Nat) : Sim :=
+  ((d.chain.take n).flatMap fun (_, r) => r.updates).foldl (simUpdate (simBase d)) {}
+
+/-- every returned entry carries exactly what the walk above yields for its target -/
+def exactFields (d : Judged) : Option String :=
+  let s := simPrefix d d.chain.length
+  d.obs.updates.findSome? fun e => match e with
+    | none => none
+    | some e =>
+      let expected := s.get (simBase d) e.containerId
+      if canonRes expected == canonRes (e.resources.getD {}) then none
+      else some s!"entry for {U e.containerId}: expected {shRes (canonRes expected)} /// returned {shRes (canonRes (e.resources.getD {}))}"
+
 /-- C04: each plugin is shown what the previous plugin was shown, overlaid with the
     previous plugin's own adjustment (first plugin: the original) -/
 def specC04 (d : Judged) : Bool × String × String :=
@@ -208,28 +259,17 @@ def specC04 (d : Judged) : Bool × String × String :=
     | some w => (false, w, "C04:view")
     | none => (true, "", "")
   else if d.inp.kind == "update" then
-    let orig := canonRes (normRes (d.inp.resources.getD {}))
-    match d.obs.viewsR with
-    | v :: _ => if canonRes v != orig then (false, "first plugin was not shown the runtime's requested resources", "C04:first-view") else (true, "", "")
-    | [] => (true, "", "")
+    -- plugin i is shown the requested resources overlaid with the applied updates of the
+    -- container being updated that earlier plugins sent
+    let own := cidOf d.kind
+    let bad := (List.zip (List.range d.obs.viewsR.length) d.obs.viewsR).findSome? fun (i, v) =>
+      let expected := (simPrefix d i).get (simBase d) own
+      if canonRes v == canonRes expected then none
+      else some s!"plugin #{i} of an update request was shown {shRes (canonRes v)} /// expected {shRes (canonRes expected)}"
+    match bad with
+    | some w => (false, w, "C04:shown-resources")
+    | none => (true, "", "")
   else (true, "", "")
-
-/-- C05 "exactly the resource fields plugins set for it (each from its single owner) and
-    nothing else": when the request succeeded and no update is marked ignore-failure, every
-    update was applied, so the entry for a target is its base (the runtime's requested
-    resources for the updated container, empty otherwise) overlaid with every update of that
-    target in chain order. -/
-def exactFields (d : Judged) : Option String :=
-  if d.chain.any (fun (_, r) => r.updates.any (·.ignoreFailure)) then none else
-  d.obs.updates.findSome? fun e => match e with
-    | none => none
-    | some e =>
-      let own : Bool := match d.kind with | .update o => decide (o = e.containerId) | _ => false
-      let base := if own then normRes (d.inp.resources.getD {}) else normRes {}
-      let ups := d.chain.flatMap fun (_, r) => r.updates.filter fun u => u.containerId = e.containerId
-      let expected := ups.foldl (fun acc u => match u.resources with | some r => overlayRes acc r r.pids | none => acc) base
-      if canonRes expected == canonRes (e.resources.getD {}) then none
-      else some s!"entry for {U e.containerId}: expected {shRes (canonRes expected)} /// returned {shRes (canonRes (e.resources.getD {}))}"
 
 /-- C05, structure of the update list: one entry per distinct target, only mentioned
     targets, own entry last (placeholder when untouched), self-update fails creation -/
